@@ -530,12 +530,32 @@ def rule_r4(ctx) -> List[R.Inst]:
     # invert flag: excluded = not allowed, in all three filters
     for cls in ("PtnFilterCombo", "PtnFilterChord", "PtnFilterType"):
         f = M.fn(f"{FILTERS}.{cls}.filter")
-        rr = [n for n in walk_no_nested(f.node) if isinstance(n, ast.Return) and n.value is not None and "invert_filter" in unparse(n.value)]
         key = f"{cls}:invert"
-        if len(rr) != 1 or not isinstance(rr[0].value, ast.IfExp) or unparse(rr[0].value.test) != "self.invert_filter":
+        # `return X if self.invert_filter else Y` — read in the statement form the model gives it: `if self.invert_filter: return X`
+        # followed by `return Y` (or with the test negated)
+        sw = None
+        body_ = [st for st in f.node.body]
+        for i_, st in enumerate(body_):
+            if isinstance(st, ast.If) and len(st.body) == 1 and isinstance(st.body[0], ast.Return) and st.body[0].value is not None:
+                t_ = st.test
+                neg_t = isinstance(t_, ast.UnaryOp) and isinstance(t_.op, ast.Not)
+                if unparse(t_.operand if neg_t else t_) != "self.invert_filter":
+                    continue
+                other = st.orelse[0] if len(st.orelse) == 1 and isinstance(st.orelse[0], ast.Return) else \
+                    (body_[i_ + 1] if not st.orelse and i_ + 1 < len(body_) and isinstance(body_[i_ + 1], ast.Return) else None)
+                if other is not None and other.value is not None:
+                    x_, y_ = st.body[0].value, other.value
+                    sw = (st, y_, x_) if neg_t else (st, x_, y_)
+        if sw is None:
             insts.append(R.undec(rid, key, file, f.node.lineno, "exclude/allow switch not recognised"))
             continue
-        a, b = unparse(rr[0].value.body), unparse(rr[0].value.orelse)
+
+        class _RR:
+            pass
+        rr = [_RR()]
+        rr[0].lineno = sw[0].lineno
+        rr[0].value = ast.IfExp(test=sw[0].test, body=sw[1], orelse=sw[2])
+        a, b = unparse(sw[1]), unparse(sw[2])
         neg = a.replace("np.invert(", "", 1)[:-1] == b or a.replace(" not in ", " in ") == b or a == f"not {b}" or a == f"~{b}" or \
             a == f"not ({b})"
         insts.append(R.ok(rid, key, file, rr[0].lineno, idiom="exclude = negation of allow") if neg else
